@@ -2,6 +2,7 @@ package world
 
 import (
 	"context"
+	"encoding/base64"
 	"encoding/json"
 	"errors"
 	"fmt"
@@ -451,6 +452,9 @@ func (w *World) execApprove(a *Actor, op *Op) error {
 	if err != nil {
 		return err
 	}
+	if ap.Misfile || ap.Lift {
+		return w.execApproveByz(a, op, from, to)
+	}
 	next := w.Att.Clone()
 	ck := ChangeKey(ap.Ref, from, to)
 	if ap.Remove {
@@ -522,4 +526,109 @@ func (w *World) execApprove(a *Actor, op *Op) error {
 func JSON(v any) json.RawMessage {
 	b, _ := json.Marshal(v)
 	return b
+}
+
+// execApproveByz writes attestation blobs the setters would refuse: a validly
+// signed statement for change X stored under the path of change Y (misfile),
+// or an envelope for Y carrying signatures made over X's statement (lift).
+// Neither adds a valid approval for any change, so ground truth is unchanged.
+func (w *World) execApproveByz(a *Actor, op *Op, from, to string) error {
+	ap := op.Approve
+	yFrom := "0000000000000000000000000000000000000000"
+	if ap.StoreFrom != 0 {
+		e, ok := w.ByOp[ap.StoreFrom]
+		if !ok {
+			return ErrSkipped
+		}
+		yFrom = e.Target
+	}
+	yC, ok := w.Commits[ap.StoreTo]
+	if !ok {
+		return ErrSkipped
+	}
+	yTo := yC.Tree
+	yRef := ap.StoreRef
+	if yRef == "" {
+		yRef = ap.Ref
+	}
+	if yRef == ap.Ref && yFrom == from && yTo == to {
+		return ErrSkipped // not a different change
+	}
+	var env *sslibdsse.Envelope
+	var err error
+	mk := func(ref, f, t string) (*sslibdsse.Envelope, error) {
+		if ap.App != "" {
+			stmt, err := attestations.NewGitHubPullRequestApprovalAttestation(ref, f, t, ap.Approvers, ap.Dismissed)
+			if err != nil {
+				return nil, err
+			}
+			return dsse.CreateEnvelope(stmt)
+		}
+		stmt, err := attestations.NewReferenceAuthorizationForCommit(ref, f, t)
+		if err != nil {
+			return nil, err
+		}
+		return dsse.CreateEnvelope(stmt)
+	}
+	signers := ap.Signers
+	if ap.App != "" {
+		signers = []int{ap.AppKey}
+	}
+	// X's statement, validly signed
+	env, err = mk(ap.Ref, from, to)
+	if err != nil {
+		return err
+	}
+	for _, s := range signers {
+		if env, err = dsse.SignEnvelope(context.Background(), env, GetKey(s).DSSE()); err != nil {
+			return err
+		}
+	}
+	if ap.Lift {
+		// Y's statement carrying the signatures made over X's statement
+		yEnv, err := mk(yRef, yFrom, yTo)
+		if err != nil {
+			return err
+		}
+		yEnv.Signatures = env.Signatures
+		env = yEnv
+	}
+	blob, err := json.Marshal(env)
+	if err != nil {
+		return err
+	}
+	// rebuild the attestations tree with the extra blob under Y's path
+	files := map[string]string{}
+	if tip, ok := w.St.GetRef(attestations.Ref); ok {
+		c, err := w.St.CommitInfo(tip)
+		if err != nil {
+			return err
+		}
+		if files, err = w.St.AllFiles(c.Tree); err != nil {
+			return err
+		}
+	}
+	path := "reference-authorizations/" + attestations.ReferenceAuthorizationPath(yRef, yFrom, yTo)
+	if ap.App != "" {
+		path = "code-review-approvals/" + attestations.GitHubPullRequestApprovalAttestationPath(yRef, yFrom, yTo) + "/" + base64.URLEncoding.EncodeToString([]byte(ap.App))
+	}
+	blobID, err := a.H.WriteBlob(blob)
+	if err != nil {
+		return err
+	}
+	files[path] = blobID.String()
+	entries := []gitstore.TreeEntry{}
+	for p, id := range files {
+		entries = append(entries, gitstore.TreeEntry{Path: p, ID: hashOf(id), Kind: gitstore.KindBlob})
+	}
+	tree, err := a.H.WriteTree(entries)
+	if err != nil {
+		return err
+	}
+	cid, err := a.H.Commit(tree, attestations.Ref, "attestations", false)
+	if err != nil {
+		return err
+	}
+	w.pendingAtt = w.Att.Clone()
+	return RecordEntry(a.H, attestations.Ref, cid.String(), -2)
 }
